@@ -136,8 +136,9 @@ ALLOWED = {
     'rack': ('TypeError', 'ValueError', 'SlotTakenError', 'IndexError'),
     'rack_existing': ('TypeError', 'ValueError', 'SlotTakenError', 'IndexError'),
     'rack_remove': ('ValueError', 'IndexError'), 'rack_remove_item': ('ValueError',),
-    'state': (), 'mode': (), 'charge': ('TypeError', 'ValueError'), 'target': (), 'level': (), 'source': (),
-    'fleet_join': ('ValueError',), 'fleet_leave': ('KeyError',), 'profile': ('TypeError', 'ValueError'),
+    'state': (), 'mode': (), 'charge': ('TypeError', 'ValueError'), 'charge_existing': ('TypeError', 'ValueError'),
+    'target': (), 'level': (), 'source': (),
+    'fleet_join': ('ValueError',), 'fleet_leave': ('KeyError',), 'fleet_remove_from': ('KeyError',), 'profile': ('TypeError', 'ValueError'),
     'read': (), 'read_all': (),
 }
 
